@@ -41,6 +41,7 @@ type ObSpec struct {
 	Bound      string       `json:"bound"`
 	Claim      string       `json:"claim"`
 	NoReplay   bool         `json:"no_replay"`
+	AssertSolver string     `json:"assert_solver"`
 	Params     map[string]int `json:"params"` // tier-dependent ints readable by harness via vparam (quick)
 	ParamsThorough map[string]int `json:"params_thorough"`
 }
@@ -393,6 +394,8 @@ func runOb(eng *sx.Engine, o ObSpec, tier string, open map[string]bool, verbose 
 	if x.Cfg.MaxPaths == 0 {
 		x.Cfg.MaxPaths = 200000
 	}
+	x.Cfg.AssertSolver = o.AssertSolver
+	x.Cfg.AssertTimeoutMs = to
 	budget := 25 * time.Minute
 	if tier == "thorough" {
 		budget = 3 * time.Hour
@@ -416,7 +419,11 @@ func runOb(eng *sx.Engine, o ObSpec, tier string, open map[string]bool, verbose 
 	res.St = x.St
 	res.Params = x.Params
 	res.Solver.Queries, res.Solver.Sat, res.Solver.Unsat, res.Solver.Unknown = s.Queries, s.NSat, s.NUnsat, s.NUnk
-	res.Solver.Seconds = s.Time.Seconds()
+	res.Solver.Queries += x.AuxQueries
+	res.Solver.Sat += x.AuxSat
+	res.Solver.Unsat += x.AuxUnsat
+	res.Solver.Unknown += x.AuxUnk
+	res.Solver.Seconds = s.Time.Seconds() + x.AuxTime.Seconds()
 	res.Solver.Errors = s.Errors
 	res.Wall = time.Since(t0).Seconds()
 	return res
@@ -468,6 +475,9 @@ func writeEvidence(spec Spec, tier string, seed int, results []*obResult, wall f
 			Paths: r.St.Paths, PathKinds: r.St.PathKinds, Forks: r.St.Forks, Steps: r.St.Steps, MaxUnwind: r.St.MaxUnwind, Unwind: r.Spec.Unwind,
 			Queries: r.Solver.Queries, Sat: r.Solver.Sat, Unsat: r.Solver.Unsat, Unknown: r.Solver.Unknown, SolverS: r.Solver.Seconds, WallS: r.Wall,
 			Solver: r.Spec.Solver, Stubs: r.St.StubsUsed, Notes: r.St.Notes, Known: r.St.KnownHit, Viol: r.St.Violations}
+		if r.Spec.AssertSolver != "" {
+			e.Solver = "z3 5.1.0 incremental (feasibility) + one-shot " + r.Spec.AssertSolver + " (assertions)"
+		}
 		if e.Solver == "" {
 			e.Solver = "z3 5.1.0 (z3-new -in, incremental push/pop)"
 		}
